@@ -13,15 +13,21 @@
   * and the parser does enforce it (`parse_wellScoped`, `parseExpr_scoped`, proved over all
     parser functions in `Lemmas/ParserScope.lean`), so `run_never_sentinel_src` holds for every
     program text with no hypothesis at all;
-  * one explicit `panic(` site is shown unreachable: `no_unhandled_literal` (every literal node
-    of a parsed program carries a literal token, `Lemmas/ParserWF.lean`).
-  The absence of Go panics is covered by the correspondence check (class `panic`), by
-  `Audit/FactsTie.lean` (the list of explicit `panic(` sites) and by C08's frame theorem (the
-  root frame is never popped); it is not a theorem here — see DESIGN.md.
+  * **no panic**: a state invariant (`Lemmas/NoPanic*.lean`: the frame stack is never empty, `$`
+    is bound whenever rule or selector code runs, every function value stored in the part of the
+    heap an evaluator can reach has an index below the number of functions of *that* evaluator's
+    program, every speculative member has a parent) is established by `NewEvaluator`, preserved
+    by every evaluator function (one mutual induction, third instance of the architecture of
+    `Lemmas/Invariant.lean`) and by the rule driver, and makes each of the five `panic` sites of
+    the model unreachable — for every program text that parses, all selector texts and all
+    input files: `run_never_panics`.  Together with the signal half: `run_outcome_classified`.
+  What the model does not mark as a panic site (a Go runtime crash the model has no `throwPanic`
+  for) is covered by the correspondence check (class `panic`), not by these theorems.
 -/
 import Jqawk.Lemmas.DriverSignals
 import Jqawk.Lemmas.ParserScope
 import Jqawk.Lemmas.ParserWF
+import Jqawk.Lemmas.NoPanicRun
 
 namespace Jqawk.C01
 open Jqawk
@@ -318,5 +324,156 @@ theorem no_unhandled_literal_selector (sel : Bytes) (e : Expr)
 example : (match parseExpressionSrc expectedRuleTable b!"$.items[0]" with
     | .ok e => (e.subs.filter (fun e => match e with | .lit _ => true | _ => false)).length == 2
     | _ => false) = true := by decide +kernel
+
+/-! ### no panic: the five `panic` sites of the model are unreachable -/
+
+/-- the state invariant while rule or selector code runs (`Lemmas/NoPanicHeap.lean`,
+    `Lemmas/NoPanicLogic.lean`), for the main evaluator of `prog`: heap, frames and return slot
+    well-formed, every function value in range, the frame stack non-empty, `$` bound -/
+abbrev RunInv (prog : Program) (s : St) : Prop := InvK (Pm prog) (KSet (Pm prog)) s
+
+/-- the invariant between rule executions (`$` need not be bound) -/
+abbrev DriverInv (prog : Program) (s : St) : Prop := InvK (Pm prog) KAny s
+
+/-- **`NewEvaluator` establishes the invariant** (clause "never ends in an internal panic", site
+    "dangling function" and "no frame"): the root frame exists and every function value it stores
+    has an index below `prog.functions.length`. -/
+theorem newEvaluator_establishes (prog : Program) : DriverInv prog (newEvaluator prog Heap.empty [] 0) :=
+  newEvaluator_inv prog (Nat.le_refl _) (Nat.le_refl _) (HeapOK.empty _ rfl rfl rfl) _ _
+
+/-- … and once `$` is bound (what every rule loop does first) the evaluator's invariant holds -/
+theorem newEvaluator_bound (prog : Program) (c : CellId) :
+    RunInv prog { newEvaluator prog Heap.empty [] 0 with ruleRoot := some c } :=
+  have h := newEvaluator_establishes prog
+  ⟨⟨h.heap, h.frames, h.ret⟩, ⟨c, rfl, Nat.zero_le c⟩⟩
+
+/-- **No statement panics** (all five sites at once): in a well-formed program, a well-formed
+    statement evaluated with any fuel from any state satisfying the invariant does not end in a
+    panic — it neither finds the frame stack empty, nor `$` unbound in `print`, nor a literal node
+    without a literal token, nor a function value out of range, nor a speculative member without
+    parent — and the invariant holds again however it ends. -/
+theorem stmt_never_panics (prog : Program) (hwf : prog.wfB = true) (n : Nat) (st : Stmt)
+    (hst : st.wfB = true) (s : St) (hs : RunInv prog s) :
+    (∀ m s', evalStmt prog n st s ≠ .err (.panic m) s') ∧
+    (∀ s', evalStmt prog n st s = .ok () s' → RunInv prog s') := by
+  have h := (allNP (Pm prog) prog (Nat.le_refl _) (Program.wfB_functions hwf) n).stmt st hst s hs
+  unfold NPat at h
+  constructor
+  · intro m s' he; rw [he] at h; exact h
+  · intro s' he; rw [he] at h; exact h.1
+
+/-- the same for expressions; the cell handed out is a cell of the heap region the evaluator owns -/
+theorem expr_never_panics (prog : Program) (hwf : prog.wfB = true) (n : Nat) (e : Expr)
+    (he : e.wfB = true) (s : St) (hs : RunInv prog s) (m : String) (s' : St) :
+    evalExpr prog n e s ≠ .err (.panic m) s' := by
+  have h := (allNP (Pm prog) prog (Nat.le_refl _) (Program.wfB_functions hwf) n).expr e he s hs
+  unfold NPat at h
+  intro hc; rw [hc] at h; exact h
+
+/-- non-vacuity: a parsed program is well-formed, and `newEvaluator_bound` provides a state that
+    satisfies the invariant -/
+example : (match parseProgramSrc expectedRuleTable
+      b!"function f(x) { return x + 1 } BEGIN { n = 0 } $.a > 0 { n++; print f($.a), $.b[0] } END { print }" with
+    | .ok p => p.wfB && p.functions.length == 1 && p.rules.length == 3
+    | _ => false) = true := by decide +kernel
+
+/-! the hypotheses are needed — each panic site is reachable from a state outside the invariant: -/
+
+/-- a function value out of range ("dangling function") -/
+example : (match callFunction Program.empty 1 0 0 []
+      { heap := ⟨#[.fn 0], #[], #[]⟩, frames := [⟨[], []⟩], out := [], root := none, ruleRoot := none,
+        returnVal := none, faults := 0 } with
+    | .err (.panic _) _ => true | _ => false) = true := by decide +kernel
+
+/-- `print` without arguments while `$` is unbound ("print without a rule root") -/
+example : (match evalStmt Program.empty 2 (.print ⟨.print, 0, []⟩ [])
+      (newEvaluator Program.empty Heap.empty [] 0) with
+    | .err (.panic _) _ => true | _ => false) = true := by decide +kernel
+
+/-- an empty frame stack ("no frame") -/
+example : (match setLocal b!"x" 0
+      { heap := Heap.empty, frames := [], out := [], root := none, ruleRoot := none,
+        returnVal := none, faults := 0 } with
+    | .err (.panic _) _ => true | _ => false) = true := by decide +kernel
+
+/-- materialising a cell that is not speculative ("speculative object has no parent");
+    `evalAssignment` only calls `createSpeculative` on cells that are -/
+example : (match createSpeculative 1 0
+      { heap := ⟨#[.nil none], #[], #[]⟩, frames := [⟨[], []⟩], out := [], root := none, ruleRoot := none,
+        returnVal := none, faults := 0 } with
+    | .err (.panic _) _ => true | _ => false) = true := by decide +kernel
+
+/-- **A selector never panics** (the `EvalExpression` entry point): evaluated from any state of
+    the main evaluator that satisfies the driver invariant — the nested evaluator runs with
+    `Program.empty` on the shared heap, but everything it can reach (its fresh builtins, the fresh
+    conversion of the JSON value, what it allocates) contains no function value. -/
+theorem selector_never_panics (tbl : RuleTable) (htbl : TblOK tbl) (prog : Program) (sel : Bytes)
+    (rootValue : JVal) (s : St) (hs : DriverInv prog s) (m : String) (s' : St) :
+    evalSelector tbl sel rootValue s ≠ .inl (.panic m, s') :=
+  fun h => (evalSelector_np htbl prog sel rootValue s hs).1 _ _ h m rfl
+
+/-- … in particular as the first thing after `NewEvaluator` -/
+theorem selector_never_panics_initial (prog : Program) (sel : Bytes) (rootValue : JVal) (m : String)
+    (s' : St) :
+    evalSelector expectedRuleTable sel rootValue (newEvaluator prog Heap.empty [] 0) ≠ .inl (.panic m, s') :=
+  selector_never_panics _ expectedRuleTable_ok prog sel rootValue _ (newEvaluator_establishes prog) m s'
+
+/-- non-vacuity: a selector that parses and calls a builtin -/
+example : (match evalSelector expectedRuleTable b!"$.items[0].name.upper()" (.obj [(b!"items",
+      .arr [.obj [(b!"name", .str b!"x")]])]) (newEvaluator Program.empty Heap.empty [] 0) with
+    | .inr (.ok _, _) => true | _ => false) = true := by decide +kernel
+
+/-- **A run of a well-formed program never panics**, for every rule table satisfying `TblOK`
+    (needed for the selectors), all selector texts and all input files. -/
+theorem run_wf_never_panics (tbl : RuleTable) (htbl : TblOK tbl) (prog : Program)
+    (hwf : prog.wfB = true) (src : Bytes) (sels : List Bytes) (files : List InputFile) (m : String) :
+    (runProgram prog src tbl sels files).outcome ≠ .panic m :=
+  runProgram_np htbl prog hwf src sels files m
+
+/-- **No run ever panics** (clause "it never ends in an internal panic", for the panic sites of
+    the model): for every rule table whose `literal`/`assign`/`binary` rules sit on the tokens
+    they are written for (`TblOK`), every program text, all selector texts and all input files,
+    the outcome of `evalProgram` (parse, then run) is not a panic: either the text does not parse,
+    or it parses to a well-formed program (`parseProgramSrc_wf`) and `run_wf_never_panics` applies. -/
+theorem run_never_panics (tbl : RuleTable) (htbl : TblOK tbl) (src : Bytes) (sels : List Bytes)
+    (files : List InputFile) (m : String) :
+    (evalProgram tbl src sels files).outcome ≠ .panic m := by
+  unfold evalProgram
+  split
+  · intro h; cases h
+  · intro h; cases h
+  · rename_i p hp
+    exact run_wf_never_panics tbl htbl p (parseProgramSrc_wf htbl src p hp) src sels files m
+
+/-- the hypothesis on the table is needed: with a `literal` rule on a non-literal token the
+    parser builds a literal node the evaluator has no case for -/
+example : (match (evalProgram ((.rparen, ⟨0, some .literal, none⟩) :: expectedRuleTable)
+      b!"BEGIN { ) }" [] []).outcome with
+    | .panic _ => true | _ => false) = true := by decide +kernel
+
+/-- **No run ever panics — for the rule table of src/parser.go, unconditionally.** -/
+theorem run_never_panics_src (src : Bytes) (sels : List Bytes) (files : List InputFile) (m : String) :
+    (evalProgram expectedRuleTable src sels files).outcome ≠ .panic m :=
+  run_never_panics expectedRuleTable expectedRuleTable_ok src sels files m
+
+/-- non-vacuity: a run with a function, a selector, member access and output ends normally -/
+example : (match (evalProgram expectedRuleTable
+      b!"function f(x) { return x + 1 } { print f($.a), $.b[0] }" [b!"$.items"]
+      [⟨b!"f", b!"{\"items\": [{\"a\": 1, \"b\": [2]}]}", .eof⟩]).outcome with
+    | .ok => true | _ => false) = true := by decide +kernel
+
+/-- **C01, both halves**: the outcome of a run is success, one of the three reported error kinds
+    (syntax error, runtime error, JSON input error), or the model declining (`unmodelled`, out of
+    fuel) — never an internal signal and never a panic. -/
+theorem run_outcome_classified (src : Bytes) (sels : List Bytes) (files : List InputFile) :
+    match (evalProgram expectedRuleTable src sels files).outcome with
+    | .ok | .syntaxErr _ _ | .runtimeErr _ _ _ | .jsonErr _ | .unmodelled _ | .oof => True
+    | .sentinel _ | .panic _ => False := by
+  have h1 := run_never_sentinel_src expectedRuleTable src sels files
+  have h2 := run_never_panics_src src sels files
+  cases ho : (evalProgram expectedRuleTable src sels files).outcome with
+  | sentinel g => exact h1 g ho
+  | panic m => exact h2 m ho
+  | _ => trivial
 
 end Jqawk.C01
